@@ -97,6 +97,14 @@ def replay(case):
         for v in viol:
             print("  %s :: %s" % (v["site"], v["detail"][:400]))
         return bool(viol)
+    if case["op"].get("op") == "from_array-scale":
+        from .props import c15
+
+        viol, _ = c15.scale_family(None, case.get("tier", "quick"))
+        viol = [v for v in viol if v["op"] == case["op"]]
+        for v in viol:
+            print("  %s :: %s" % (v["site"], v["detail"][:400]))
+        return bool(viol)
     if case["op"].get("op") == "from_array":
         from .props import c15
 
